@@ -195,6 +195,52 @@ def traces():
     rej = sum(not a for a in acc)
     print("TRACE drivers: corrupted runs rejected %d/%d%s" % (rej, len(acc), " (TLC stopped at %s)" % r.violated if r.violated else ""))
     bad += rej != len(acc) and not r.violated
+    # --- composed system traces (parallel run with the cache on)
+    cands = sorted(glob.glob(os.path.join(common.OUT, "trace_system_*towers*", "run.json")))
+    if not cands:
+        subprocess.run([os.path.join(common.VERIF, "bin", "check"), "C14"], stdout=subprocess.DEVNULL)
+        cands = sorted(glob.glob(os.path.join(common.OUT, "trace_system_*towers*", "run.json")))
+    src = cands[0]
+    cfg = os.path.join(os.path.dirname(src), "TraceSystem_run")
+    good = json.load(open(src))
+
+    def sys_accept(tr):
+        tf = os.path.join(d, "sys_run.json")
+        json.dump(tr, open(tf, "w"))
+        r = run_tlc("TraceSystem", cfg, workers=4, env={"TRACE_FILE": tf}, name="selftest_system")
+        done = [e for e in r.emitted if e.get("done")]
+        return bool(r.ok and done and all(e["keys_ok"] for e in done))
+
+    ok = sys_accept(good)
+    print("TRACE system: good run accepted: %s" % ok)
+    bad += not ok
+    muts = []
+    m = copy.deepcopy(good)
+    ev = next(e for p_ in m["procs"] for e in p_ if e["e"] == "thread_setup")
+    ev["fftw"] = 4
+    muts.append(("pyfftw threads 4 at thread_setup", m))
+    m = copy.deepcopy(good)
+    ev = next(e for p_ in m["procs"] for e in p_ if e["e"] == "get")
+    ev["exists"] = not ev["exists"]
+    muts.append(("lookup result flipped", m))
+    m = copy.deepcopy(good)
+    for p_ in m["procs"]:
+        idx_ = [i for i, e in enumerate(p_) if e["e"] == "put_end"]
+        if idx_:
+            del p_[idx_[0]]
+            break
+    muts.append(("put_end removed", m))
+    m = copy.deepcopy(good)
+    ev = next(e for p_ in m["procs"] for e in p_ if e["e"] == "init")
+    ev["thr"] = 4
+    muts.append(("worker keeps 4 threads", m))
+    m = copy.deepcopy(good)
+    m["keys"] = list(reversed(m["keys"]))
+    muts.append(("result keys reversed", m))
+    for name, m in muts:
+        ok = sys_accept(m)
+        print("TRACE system: %-34s rejected: %s" % (name, not ok))
+        bad += ok
     return bad
 
 
